@@ -1429,6 +1429,73 @@ fn unix_timestamp_roundtrip() -> usize {
     bad
 }
 
+/// C25 bounded stand-in for the pairs whose code is std / chrono parsing and printing (outside both verifiers):
+/// ip_aton/ip_ntoa, ip_pton/ip_ntop, ip_to_ipv6/ipv6_to_ipv4, to_entries/from_entries, flatten/unflatten,
+/// format_timestamp/parse_timestamp, each composed through compiled VRL programs on a stated finite domain.
+fn pair_roundtrips() -> usize {
+    let mut bad = 0;
+    let mut n = 0usize;
+    let mut expect = |what: &str, input: String, want: Value, got: Result<Value, String>, bad: &mut usize| {
+        if got != Ok(want.clone()) {
+            *bad += 1;
+            if *bad <= 12 { fail("pair_roundtrips", &format!("{what} on {input}"), &format!("{want:?}"), &format!("{got:?}")); }
+        }
+    };
+    // ip_aton(ip_ntoa(n)) == n for every accepted n; ip_ntoa(ip_aton(s)) == s for canonical dotted quads
+    let mut u32s: Vec<i64> = vec![0, 1, 9, 10, 99, 100, 255, 256, 65_535, 65_536, 16_777_215, 16_777_216, 167_772_160, 2_130_706_433, 2_147_483_647, 2_147_483_648, 3_232_235_777, 4_294_967_294, 4_294_967_295];
+    let mut x: u64 = 1; for _ in 0..2000 { x = x.wrapping_mul(6364136223846793005).wrapping_add(1442695040888963407); u32s.push((x >> 32) as i64); }
+    let aton_ntoa = Prog::new("ip_aton!(ip_ntoa!(int!(.v)))");
+    let ntoa = Prog::new("ip_ntoa!(int!(.v))");
+    let ntoa_aton = Prog::new("ip_ntoa!(ip_aton!(string!(.v)))");
+    let v4_v6_v4 = Prog::new("ipv6_to_ipv4!(ip_to_ipv6!(string!(.v)))");
+    let pton_ntop = Prog::new("ip_ntop!(ip_pton!(string!(.v)))");
+    for v in &u32s {
+        n += 4;
+        expect("ip_aton(ip_ntoa(n))", v.to_string(), Value::Integer(*v), aton_ntoa.run(obj(vec![("v", (*v).into())])), &mut bad);
+        let s = std::net::Ipv4Addr::from(*v as u32).to_string();
+        expect("ip_ntoa(n) is the dotted quad", v.to_string(), s.clone().into(), ntoa.run(obj(vec![("v", (*v).into())])), &mut bad);
+        expect("ip_ntoa(ip_aton(s))", s.clone(), s.clone().into(), ntoa_aton.run(obj(vec![("v", s.clone().into())])), &mut bad);
+        expect("ipv6_to_ipv4(ip_to_ipv6(s))", s.clone(), s.clone().into(), v4_v6_v4.run(obj(vec![("v", s.clone().into())])), &mut bad);
+        expect("ip_ntop(ip_pton(s))", s.clone(), s.clone().into(), pton_ntop.run(obj(vec![("v", s.clone().into())])), &mut bad);
+    }
+    let mut v6s: Vec<u128> = vec![0, 1, 0xffff, 0x1_0000, u128::MAX, u128::MAX - 1, 0x2001_0db8_0000_0000_0000_0000_0000_0001, 0xfe80_0000_0000_0000_0000_0000_0000_0001,
+        0x0000_0000_0000_0000_0000_ffff_0102_0304, 0x0001_0000_0000_0000_0000_0000_0000_0000, 0x0001_0000_0000_0001_0000_0000_0000_0001, 0x0064_ff9b_0000_0000_0000_0000_c000_0221];
+    let mut y: u128 = 7; for _ in 0..1000 { y = y.wrapping_mul(0x2360ed051fc65da44385df649fccf645).wrapping_add(0x5851f42d4c957f2d14057b7ef767814f); v6s.push(y); v6s.push(y & 0xffff_0000_0000_ffff_0000_0000_ffff_0000); }
+    for a in &v6s {
+        n += 1;
+        let s = std::net::Ipv6Addr::from(*a).to_string();
+        expect("ip_ntop(ip_pton(s))", s.clone(), s.clone().into(), pton_ntop.run(obj(vec![("v", s.clone().into())])), &mut bad);
+    }
+    // to_entries/from_entries and flatten/unflatten on objects without separators in keys and without empty containers
+    let leaf: Vec<Value> = vec![Value::Integer(1), Value::Null, "s".into(), Value::Boolean(true), Value::Array(vec![Value::Integer(1), "x".into()])];
+    let mut objs: Vec<Value> = Vec::new();
+    for (i, a) in leaf.iter().enumerate() {
+        objs.push(obj(vec![("a", a.clone())]));
+        for b in &leaf {
+            objs.push(obj(vec![("a", a.clone()), ("b c", b.clone())]));
+            objs.push(obj(vec![("k", obj(vec![("x", a.clone()), ("y", obj(vec![("z", b.clone())]))])), ("m", leaf[(i + 1) % leaf.len()].clone())]));
+        }
+    }
+    let entries = Prog::new("from_entries!(to_entries(object!(.v)))");
+    let flat = Prog::new("unflatten(flatten(object!(.v)))");
+    for o in &objs {
+        n += 2;
+        expect("from_entries(to_entries(o))", format!("{o}"), o.clone(), entries.run(obj(vec![("v", o.clone())])), &mut bad);
+        expect("unflatten(flatten(o))", format!("{o}"), o.clone(), flat.run(obj(vec![("v", o.clone())])), &mut bad);
+    }
+    // format_timestamp/parse_timestamp with a full-precision format, years 1..=9999
+    let fmt = "%Y-%m-%dT%H:%M:%S%.9f%z";
+    let ts = Prog::new(&format!("t = from_unix_timestamp!(int!(.v), unit: \"nanoseconds\"); parse_timestamp!(format_timestamp!(t, \"{fmt}\"), \"{fmt}\") == t"));
+    let secs: Vec<i64> = vec![-9_223_372_036, -2_208_988_800, -86_401, -86_400, -1, 0, 1, 59, 60, 86_399, 86_400, 951_782_400, 1_078_012_800, 1_700_000_000, 2_147_483_647, 2_147_483_648, 4_102_444_800, 9_223_372_035];
+    for sec in &secs { for ns in [0i64, 1, 999, 1000, 123_456_789, 999_999_999] {
+        let Some(v) = sec.checked_mul(1_000_000_000).and_then(|x| x.checked_add(ns)) else { continue };
+        n += 1;
+        expect("parse_timestamp(format_timestamp(t, f), f) == t", format!("{v} ns, f = {fmt}"), Value::Boolean(true), ts.run(obj(vec![("v", v.into())])), &mut bad);
+    } }
+    eprintln!("pair_roundtrips: {n} compositions");
+    bad
+}
+
 /// C29 bounded stand-in: round / ceil / floor with a precision return a finite value within 10^-precision
 /// of the input (ceil never below, floor never above).  `extreme` selects the precisions beyond the
 /// range where 10^precision is a finite f64 (recorded separately).
@@ -1558,6 +1625,7 @@ fn main() {
         "rounding_laws" => rounding_laws(false),
         "rounding_extreme_precision" => rounding_laws(true),
         "unix_timestamp_roundtrip" => unix_timestamp_roundtrip(),
+        "pair_roundtrips" => pair_roundtrips(),
         "compile_small_sources" => compile_small_sources(),
         "stdlib_watchdog" => stdlib_watchdog(),
         "string_laws" => string_laws(),
